@@ -189,7 +189,7 @@ type c15State struct {
 	readers []*c15Reader
 	nbatch  int
 	// stats
-	staleRead, seeks, ffPrefix, emptyVal, mergeAbsent, reopens, multigets, dupSkipped, settles int
+	staleRead, seeks, ffPrefix, emptyVal, mergeAbsent, reopens, multigets, dupSkipped, settles, prealloc int
 	lastMod                                                                                    map[string]int // key -> batch number of the last modification
 }
 
@@ -387,14 +387,66 @@ func c15Property(t *rapid.T, name string, ev *Collector, multiGet bool) {
 				t.Fatalf("%s Writer: %v", name, err)
 			}
 			b := w.NewBatch()
+			distinct := map[string]bool{}
 			for _, o := range ops {
-				switch o.Kind {
-				case "set":
-					b.Set(o.Key, o.Val)
-				case "del":
-					b.Delete(o.Key)
-				case "merge":
-					b.Merge(o.Key, o.Val)
+				distinct[string(o.Key)] = true
+			}
+			if len(distinct) == len(ops) && rapid.Bool().Draw(t, "preallocated") {
+				// the pre-allocated form, used the way upsidedown's batchRows uses it: one buffer
+				// of the announced size, filled front to back with the sets, then the deletes,
+				// then the merges (keys are distinct here, so the order does not matter)
+				var opt store.KVBatchOptions
+				for _, o := range ops {
+					switch o.Kind {
+					case "set":
+						opt.NumSets++
+						opt.TotalBytes += len(o.Key) + len(o.Val)
+					case "del":
+						opt.NumDeletes++
+						opt.TotalBytes += len(o.Key)
+					case "merge":
+						opt.NumMerges++
+						opt.TotalBytes += 2 * (len(o.Key) + len(o.Val))
+					}
+				}
+				buf, pb, err := w.NewBatchEx(opt)
+				if err != nil {
+					t.Fatalf("%s NewBatchEx: %v", name, err)
+				}
+				_ = b.Close()
+				b = pb
+				put := func(x []byte) []byte {
+					n := copy(buf, x)
+					r := buf[:n] // (capacity untouched: moss locates the bytes in its buffer through it)
+					buf = buf[n:]
+					return r
+				}
+				for _, kind := range []string{"set", "del", "merge"} {
+					for _, o := range ops {
+						if o.Kind != kind {
+							continue
+						}
+						switch kind {
+						case "set":
+							b.Set(put(o.Key), put(o.Val))
+						case "del":
+							b.Delete(put(o.Key))
+						case "merge":
+							b.Merge(put(o.Key), put(o.Val))
+						}
+					}
+				}
+				st.prealloc++
+			} else {
+				for _, o := range ops {
+					switch o.Kind {
+					case "set":
+						b.Set(o.Key, o.Val)
+					case "del":
+						b.Delete(o.Key)
+					case "merge":
+						b.Merge(o.Key, o.Val)
+					}
 				}
 			}
 			if err := w.ExecuteBatch(b); err != nil {
@@ -557,6 +609,7 @@ func c15Property(t *rapid.T, name string, ev *Collector, multiGet bool) {
 	add(st.mergeAbsent > 0, "merge-on-absent-key")
 	add(st.reopens > 0, "reopen")
 	add(st.settles > 0, "lower-level-hand-over-awaited")
+	add(st.prealloc > 0, "pre-allocated-batch")
 	add(st.multigets > 0, "multi-get")
 	canon := map[string]interface{}{"store": name, "trace": trace, "seeks": st.seeks, "stale": st.staleRead}
 	ev.Case(nt, canon, canon, classes...)
@@ -575,7 +628,7 @@ func c15MultiGet(r store.KVReader, keys [][]byte) (vals [][]byte, err error) {
 
 func TestC15KV(t *testing.T) {
 	ev := Ev("C15")
-	ev.SetRule("rapid state machine per KV adapter (boltdb, goleveldb, gtreap, moss, metrics over gtreap and boltdb, moss with gtreap as its lower level - with pauses that let moss hand segments down): batches of set/delete/merge over 1-3 byte keys from {00,a,b,fe,ff}, " +
+	ev.SetRule("rapid state machine per KV adapter, batches through NewBatch or (distinct keys) the pre-allocated NewBatchEx form filled front to back as upsidedown does (boltdb, goleveldb, gtreap, moss, metrics over gtreap and boltdb, moss with gtreap as its lower level - with pauses that let moss hand segments down): batches of set/delete/merge over 1-3 byte keys from {00,a,b,fe,ff}, " +
 		"up to 3 held snapshot readers, get / multi-get / prefix and range iterators with Next/Seek scripts, reopen; oracle = sorted byte map with int64-add merge operator, reader answers from its own snapshot copy, full scan after every step; " +
 		"non-trivial = a reader was queried about a key modified by a later batch and an iterator script contained a Seek")
 	ev.Assume("keys are non-empty; a key merged in a batch is not also set/deleted in that batch; Next is only called on a valid iterator")
